@@ -137,3 +137,100 @@ def zadd(A, B):
 
 def zsub(A, B):
     return [[a - b for a, b in zip(ra, rb)] for ra, rb in zip(A, B)]
+
+
+# ------------------------------------------------------------------------------------------- EKF builders
+
+
+def noise_env(p):
+    """z3 variables for per-control process noise and per-reading sensor noise (bound by name)."""
+    pn = {c: z3.Real(f"pn_{c}") for c in p.control}
+    sn = {k: {r: z3.Real(f"sn_{k}_{r}") for r in p.sensors[k]} for k in p.sensors}
+    return pn, sn
+
+
+def noise_positive(pn, sn):
+    out = [v > 0 for v in pn.values()]
+    for k in sn:
+        out += [v > 0 for v in sn[k].values()]
+    return out
+
+
+def build_ekf_sym(p, env, pn, sn, *, cse=True, k=None, max_dt=0.1, container="list", reverse_sensors=False):
+    """Real formak.python.compile_ekf with symbolic calibration and symbolic noise.  Call inside installed()."""
+    from formak import python
+
+    st = p.symtab()
+    process_noise = {st[c]: SymReal(pn[c]) for c in p.control}
+    sens = p.sympy_sensors(reverse=reverse_sensors)
+    sensor_noises = {key: {r: SymReal(sn[key][r]) for r in sens[key]} for key in sens}
+    cfg = python.Config(common_subexpression_elimination=cse, innovation_filtering=k, max_dt_sec=max_dt)
+    return python.compile_ekf(p.ui_model(container), process_noise, sens, sensor_noises, sym_calibration_map(p, env), config=cfg)
+
+
+def build_ekf_float(p, vals, *, cse=True, k=None, max_dt=0.1, pn=None, sn=None):
+    """The real code in floats. vals: name -> float for calibration; pn/sn default to the program's noise."""
+    from formak import python
+
+    st = p.symtab()
+    pn = pn if pn is not None else p.process_noise
+    sn = sn if sn is not None else p.sensor_noise
+    process_noise = {st[c]: float(pn[c]) for c in p.control}
+    sens = p.sympy_sensors()
+    sensor_noises = {key: {r: float(sn[key][r]) for r in sens[key]} for key in sens}
+    cfg = python.Config(common_subexpression_elimination=cse, innovation_filtering=k, max_dt_sec=max_dt)
+    return python.compile_ekf(p.ui_model(), process_noise, sens, sensor_noises, float_calibration_map(p, vals), config=cfg)
+
+
+def noise_vals_from_env(p, envf):
+    pn = {c: envf.get(f"pn_{c}", p.process_noise[c]) for c in p.control}
+    sn = {k: {r: envf.get(f"sn_{k}_{r}", p.sensor_noise[k][r]) for r in p.sensors[k]} for k in p.sensors}
+    return pn, sn
+
+
+# ------------------------------------------------------------------------------------------- covariance helpers
+
+
+def diag_dominant(names, prefix="P", margin=0.25):
+    """Linear constraints making the symmetric matrix of sym_cov() strictly diagonally dominant (hence PD)."""
+    ns = sorted(names)
+    cs = []
+
+    def v(a, b):
+        a, b = sorted([a, b], key=ns.index)
+        return z3.Real(f"{prefix}_{a}_{b}")
+
+    for a in ns:
+        off = [v(a, b) for b in ns if b != a]
+        tot = z3.RealVal(0)
+        for o in off:
+            tot = tot + z3.If(o >= 0, o, -o)
+        cs.append(v(a, a) >= tot + margin)
+    return cs
+
+
+def seeded_cov_env(names, rng, prefix="P"):
+    """Random PD matrix A A^T + I/2 on a coarse grid, as env entries."""
+    ns = sorted(names)
+    n = len(ns)
+    A = [[rng.randint(-4, 4) / 4.0 for _ in range(n)] for _ in range(n)]
+    env = {}
+    for i in range(n):
+        for j in range(i, n):
+            env[f"{prefix}_{ns[i]}_{ns[j]}"] = sum(A[i][k] * A[j][k] for k in range(n)) + (0.5 if i == j else 0.0)
+    return env
+
+
+class GateRejected(Exception):
+    pass
+
+
+def gate_guard(fn):
+    """Run fn(); an AssertionError raised by assert_valid_covariance ('Negative ...') means the candidate
+    input was rejected by a validity gate - not this property's subject (C09) - and is signalled separately."""
+    try:
+        return fn()
+    except AssertionError as e:
+        if str(e).startswith("Negative"):
+            raise GateRejected(str(e)[:200]) from e
+        raise
